@@ -53,6 +53,17 @@ class UnitTables:
             ci = model.classes[k]
             if '__UNITS' in ci.class_attrs:
                 d = ci.class_attrs['__UNITS']
+                if isinstance(d, ast.Call) and isinstance(d.func, ast.Name) and d.func.id == 'dict' and len(d.args) == 1 and not d.keywords \
+                        and isinstance(d.args[0], ast.Call) and isinstance(d.args[0].func, ast.Name) and d.args[0].func.id == 'zip' \
+                        and len(d.args[0].args) == 2:
+                    # `dict(zip(<symbols>, <values>))` over two class-level (or literal) tuples: the same table, spelled in two columns
+                    cols = []
+                    for a in d.args[0].args:
+                        if isinstance(a, ast.Name) and a.id in ci.class_attrs:
+                            a = ci.class_attrs[a.id]
+                        cols.append(a)
+                    if all(isinstance(c, (ast.Tuple, ast.List)) for c in cols) and len(cols[0].elts) == len(cols[1].elts):
+                        d = ast.copy_location(ast.Dict(keys=list(cols[0].elts), values=list(cols[1].elts)), d)
                 if not isinstance(d, ast.Dict):
                     raise AnalysisError(f'{k}.__UNITS is not a dict literal')
                 tab = {}
